@@ -12,7 +12,7 @@ import impl
 import scancorr
 
 PROP_FILES = ["theories/Props/C10.v", "theories/Inst/C10_inst.v"]
-DEPS = ["theories/Proofs/C10_proofs.vo", "theories/Proofs/All_shift.vo", "theories/Proofs/C10_refuted.vo", "theories/Engine/LocTrace.vo", "theories/Plugins/All.vo", "theories/Gen/Locations.vo",
+DEPS = ["theories/Proofs/C10_proofs.vo", "theories/Proofs/All_shift.vo", "theories/Proofs/C10_refuted.vo", "theories/Proofs/SplitlinesFacts.vo", "theories/Engine/LocTrace.vo", "theories/Plugins/All.vo", "theories/Gen/Locations.vo",
         "theories/Gen/Registry.vo", "theories/Gen/Regexes.vo", "theories/Gen/Blacklists.vo", "theories/Gen/Constants.vo"]
 
 # ---------------------------------------------------------------- programs
